@@ -616,6 +616,19 @@ func (g *gen) cands(s *Sch, depth int) []*J {
 		return append(out, jNull(), jArr(), jInt(1))
 	case "union", "xor", "and":
 		var out []*J
+		if s.K == "and" {
+			// an object carrying both sides' members
+			a, b := g.cands(s.Items[0], depth+1)[0], g.cands(s.Items[1], depth+1)[0]
+			if a.T == "o" && b.T == "o" {
+				m := a
+				for i, k := range b.Ks {
+					if m.get(k) == nil {
+						m = m.with(k, b.Vs[i])
+					}
+				}
+				out = append(out, m, m.with("zz", jInt(1)))
+			}
+		}
 		for _, m := range s.Items {
 			for i, c := range g.cands(m, depth+1) {
 				if i < 7 {
